@@ -173,7 +173,9 @@ func (cl *Cluster) Touched() []int {
 
 type masterConn struct{}
 
-func (masterConn) MasterCreateBlob(ctx context.Context) (string, core.Error) { return CuratorAddr, core.NoError }
+func (masterConn) MasterCreateBlob(ctx context.Context) (string, core.Error) {
+	return CuratorAddr, core.NoError
+}
 func (masterConn) LookupPartition(ctx context.Context, p core.PartitionID) (string, core.Error) {
 	return CuratorAddr, core.NoError
 }
@@ -209,7 +211,7 @@ func (t *cliCurTalker) rpc(k Kind, blob core.BlobID) *RPC {
 }
 
 func tractInfoAux(tis []core.TractInfo) []int64 {
-	var a []int64
+	a := []int64{int64(len(tis))}
 	for _, ti := range tis {
 		a = append(a, int64(ti.Tract.Index), int64(ti.Version), int64(len(ti.TSIDs)))
 		for _, id := range ti.TSIDs {
@@ -294,7 +296,7 @@ func (t *cliCurTalker) FixVersion(ctx context.Context, addr string, tract core.T
 	r.Tract = int(tract.Tract.Index)
 	r.Version = tract.Version
 	r.Aux = []int64{int64(TSIndex(bad))}
-	r.exec = t.cl.run(r, func() interface{} { return t.cl.Cur.FixVersionRPC(tract, bad) })
+	r.exec = t.cl.run(r, func() interface{} { cur := t.cl.Cur; r.ExecGen = cur.Gen; return cur.FixVersionRPC(tract, bad) })
 	r.fail = func() interface{} { return core.ErrRPC }
 	return t.cl.S.Call(r).(core.Error)
 }
